@@ -324,3 +324,9 @@ pub trait VhostUserMsgValidator: ByteValued {
     spec fn valid_spec(&self) -> bool;
     fn is_valid(&self) -> (r: bool) ensures r == self.valid_spec();
 }
+
+// R19 target of `std::array::from_fn(|i| *S.get(i).unwrap_or(&D))` (VhostUserShMemConfig::new): element i is S[i] where the slice has one, D otherwise
+#[verifier::external_body]
+pub fn array256_from_slice_or(s: &[u64], d: u64) -> (r: [u64; 256])
+    ensures forall|i: int| 0 <= i < 256 ==> r@[i] == (if i < s@.len() { s@[i] } else { d })
+{ unimplemented!() }
